@@ -1043,6 +1043,14 @@ package scipipe
 //@ func (*BaseProcess).OutPort(p, portName) (res)
 //@   props C16
 //@   ensures returns-only-if-present: portName in p.outPorts && res == p.outPorts[portName]
+//@ func (*BaseProcess).OutParamPort(p, portName) (res)
+//@   props C16 C19
+//@   ensures returns-only-if-present: portName in p.outParamPorts && res == p.outParamPorts[portName]
+//@ func (*BaseProcess).CloseAllOutPorts(p)
+//@   props C19
+//@   trusted closes the out-ports (CloseOutPorts: proved under C04/C05 to send nothing; CloseOutParamPorts is its twin); only "nothing is sent while closing" is used by the callers in package components
+//@   modifies map[string]*InPort, map[string]*OutPort, map[string]*InParamPort, map[string]*OutParamPort, chanclose, locked, closeCalls, pcloseCalls
+//@   ensures nothing-sent: outN == old(outN) && outAt == old(outAt) && poutN == old(poutN) && poutAt == old(poutAt)
 //@ func (*BaseProcess).OutPorts(p) (res)
 //@   props C16
 //@   ensures def: res == p.outPorts
